@@ -252,7 +252,7 @@ open MW.Lemmas.PendHist MW.Lemmas.Ledger MW.Spec.Pending
 /-- RECEIVE refines `onRecv` (new transaction, duplicate, already pending, unreadable, irrelevant, coinbase,
     re-delivery of a seen transaction): `PendRel` = the pending records are exactly the transactions of the
     specification's pending list and the spender index describes them. -/
-theorem recv_refines (rank : TxId → Nat) (e : Env) (ctx : Ctx) (s : Store) (v : Vol) (c : List Block) (P : List Tx)
+theorem recv_refines (rank : TxId → Nat) (e : Spec.Pending.Env) (ctx : Ctx) (s : Store) (v : Vol) (c : List Block) (P : List Tx)
     (t : Tx) (hrel : PendRel rank s P) (hok : RecvOK rank e ctx s v c P t) :
     PendRel rank (recvTx ctx s v t).1 (onRecv e ctx.node.chain c P t) :=
   recv_step rank e ctx s v c P t hrel hok
@@ -261,7 +261,7 @@ theorem recv_refines (rank : TxId → Nat) (e : Env) (ctx : Ctx) (s : Store) (v 
     transactions that share an input with ANY non-coinbase transaction of the block vanish with all their
     pending descendants, nothing else changes.  `hnorec`, `hcover` are facts about the mined buckets; they
     follow from C01's invariant (`connect_refines_inv`). -/
-theorem connect_refines (rank : TxId → Nat) (e : Env) (ctx : Ctx) (s s' : Store) (c : List Block) (b : Block)
+theorem connect_refines (rank : TxId → Nat) (e : Spec.Pending.Env) (ctx : Ctx) (s s' : Store) (c : List Block) (b : Block)
     (P : List Tx) (ready : List Wid) (conf : List TxId)
     (h : filterBlock ctx s ready b = .ok (s', conf)) (hne : ready.isEmpty = false)
     (hnorec : ∀ u ∈ b.txs, AMap.get s.txrecs (u.id, ⟨b.height, b.id⟩) = none)
@@ -275,7 +275,7 @@ theorem connect_refines (rank : TxId → Nat) (e : Env) (ctx : Ctx) (s s' : Stor
 /-- DISCONNECT (rollback of the tip block) refines `onChainMoved (c ++ [b]) c`: the relevant non-coinbase
     transactions of the block are pending again; the pending spenders of its coinbase outputs vanish with their
     descendants (`DiscOK.cbown` = the foreign-coinbase restriction, known finding 4). -/
-theorem disconnect_refines (rank : TxId → Nat) (e : Env) (ctx : Ctx) (s s' : Store) (c : List Block) (b : Block)
+theorem disconnect_refines (rank : TxId → Nat) (e : Spec.Pending.Env) (ctx : Ctx) (s s' : Store) (c : List Block) (b : Block)
     (P : List Tx) (ids : List TxId)
     (h : disconnectBlock ctx s b.height = .ok s') (hsync : s.syncedTo = b.height)
     (hblk : AMap.get s.blocks b.height = some (b.id, ids))
@@ -340,7 +340,7 @@ theorem pending_refines (rank : TxId → Nat) (E : HEnv) (w : HW) (evs : List HE
 theorem notify_is_steps (c : Ctx) (s : Store) (v : Vol) (b : Block) (s' : Store) (v' : Vol)
     (h : processBlock c s v b = (s', v', true)) :
     ∃ sm, DReach c s sm ∧ CReach c (readyWallets sm c.wallets) sm s' :=
-  processBlock_trace_dc c s v b s' v' h
+  processBlock_trace_dc c s s' v v' b h
 
 /-- USER LEVEL (1): while a transaction is pending, every coin it spends is flagged spent-by-unconfirmed (the
     flag coin selection and the balance listing read), along every history in the domain -/
@@ -361,7 +361,7 @@ theorem conflict_frees_coins_spec (c : List Block) (b : Block) (P : List Tx) (hn
   conflict_frees_coins c b P hnd t ht hconf
 
 /-- … and the model agrees: after the connect step the flag of a coin is exactly "a surviving transaction spends it" -/
-theorem conflict_frees_coins_model (rank : TxId → Nat) (e : Env) (s' : Store) (c : List Block) (b : Block) (P : List Tx)
+theorem conflict_frees_coins_model (rank : TxId → Nat) (e : Spec.Pending.Env) (s' : Store) (c : List Block) (b : Block) (P : List Tx)
     (h : PendRel rank s' (onChainMoved e c (c ++ [b]) P)) (tx : TxId) (idx : Nat) :
     spentByUnmined s' tx idx = spentByPending (settle (c ++ [b]) [] P) tx idx := by
   rw [h.sbu, onChainMoved_connect]
